@@ -15,8 +15,17 @@ BUF = 'uint32_t BUF[512];\n'
 HSETUP = '  g_lo = BUF; g_cap_bytes = sizeof(BUF); G_M = nondet_u32(); g_cnt = nondet_int(); uint32_t off = nondet_u32(); __CPROVER_assume(off < 512); uint32_t *l = BUF + off;\n'
 
 
+# look-up contracts in case form (same functions, see spec/geom.h; equality is the lemma group geom/walk_cases)
+SLC = {'slider_attack_3': '__CPROVER_requires(sq < 64)\n__CPROVER_assigns()\n__CPROVER_ensures(__CPROVER_return_value == spec_bishop_walk_cases(sq, blockers))\n',
+       'slider_attack_4': '__CPROVER_requires(sq < 64)\n__CPROVER_assigns()\n__CPROVER_ensures(__CPROVER_return_value == spec_rook_walk_cases(sq, blockers))\n',
+       'slider_attack_5': '__CPROVER_requires(sq < 64)\n__CPROVER_assigns()\n__CPROVER_ensures(__CPROVER_return_value == (spec_rook_walk_cases(sq, blockers) | spec_bishop_walk_cases(sq, blockers)))\n'}
+
+
 def jobs(tier, seed):
     out = []
+    LEAF = {}
+    h = 'uint32_t nondet_u32(void); uint64_t nondet_u64(void);\nvoid h_wc(void) { uint32_t s = nondet_u32(); uint64_t o = nondet_u64(); __CPROVER_assume(s < 64);\n  __CPROVER_assert(spec_rook_walk(s, o) == spec_rook_walk_cases(s, o), "rook walk: arithmetic form == case form");\n  __CPROVER_assert(spec_bishop_walk(s, o) == spec_bishop_walk_cases(s, o), "bishop walk: arithmetic form == case form");' + CANARY + '}\n'
+    out.append(Job('geom/walk_cases', tu('types.cpp'), ['from'], h, 'h_wc', spec=['geom.h'], timeout=900, note='spec-side lemma: the ray walks written with a symbolic origin equal their case-by-origin form'))
     common = dict(spec=['movegen.h'], pre_text=EMIT_PRE, hooks=HOOKS, loop_contracts=True, expect=['loop_invariant_step'])
     # ---- king moves
     KM = 'generate_king_moves'
@@ -78,9 +87,9 @@ def jobs(tier, seed):
         sn = ('white', 'black')[side]
         # ---- pinned pawn
         fn = 'generate_pinned_pawn_moves_%d' % side
-        c = ('__CPROVER_requires(from < 64 && (from >> 3) >= 1 && (from >> 3) <= 6 && ray < 8 && %s)\n' % (LISTREQ % 16) +
+        c = ('__CPROVER_requires(from < 64 && (from >> 3) >= 1 && (from >> 3) <= 6 && ray < 8 && pos->_enpassant_square <= 64 && %s)\n' % (LISTREQ % 16) +
              '__CPROVER_assigns(g_cnt)\n'
-             '__CPROVER_ensures(g_cnt == __CPROVER_old(g_cnt) + spec_pinned_pawn_count(%d, from, (int)ray, %s, pos->_by_color_bb[%d], G_M))\n' % (side, OCC, 1 - side) + LISTENS % 16)
+             '__CPROVER_ensures(g_cnt == __CPROVER_old(g_cnt) + spec_pinned_pawn_count(%d, from, (int)ray, %s, pos->_by_color_bb[%d], pos->_enpassant_square, G_M))\n' % (side, OCC, 1 - side) + LISTENS % 16)
         h = ND + BUF + ('void h_pp(void) {\n' + HSETUP + '  struct Position P = nondet_Position(); uint32_t f = nondet_u32(), r = nondet_u32(); uint64_t t = nondet_u64(); %s(f, r, &P, t, l);' % fn + CANARY + '}\n')
         kw = dict(common); kw['loop_contracts'] = False; kw['expect'] = []
         out.append(Job('leaf/generate_pinned_pawn_moves_' + sn, MTUS, [fn], h, 'h_pp', contracts={fn: c}, enforce=fn, timeout=900,
@@ -89,9 +98,9 @@ def jobs(tier, seed):
         fp = 'generate_pinned_piece_moves_%d' % side
         KIND, FROM, RAY = '((pin >> 6) & 7)', '(pin & 63)', '((pin >> 9) & 7)'
         ALLOWED = '(%s == 5 || (%s == 3 && (%s & 1) == 0) || (%s == 4 && (%s & 1) == 1))' % (KIND, KIND, RAY, KIND, RAY)
-        c = ('__CPROVER_requires(%s >= 1 && %s <= 5 && (%s != 1 || ((%s >> 3) >= 1 && (%s >> 3) <= 6)) && (pin >> 12) == 0 && %s)\n' % (KIND, KIND, KIND, FROM, FROM, LISTREQ % 64) +
+        c = ('__CPROVER_requires(%s >= 1 && %s <= 5 && (%s != 1 || ((%s >> 3) >= 1 && (%s >> 3) <= 6)) && (pin >> 12) == 0 && pos->_enpassant_square <= 64 && %s)\n' % (KIND, KIND, KIND, FROM, FROM, LISTREQ % 64) +
              '__CPROVER_assigns(g_cnt)\n'
-             '__CPROVER_ensures(g_cnt == __CPROVER_old(g_cnt) + (%s == 2 ? 0 : (%s == 1 ? spec_pinned_pawn_count(%d, %s, (int)%s, %s, pos->_by_color_bb[%d], G_M) : '
+             '__CPROVER_ensures(g_cnt == __CPROVER_old(g_cnt) + (%s == 2 ? 0 : (%s == 1 ? spec_pinned_pawn_count(%d, %s, (int)%s, %s, pos->_by_color_bb[%d], pos->_enpassant_square, G_M) : '
              '((%s && %s && %s == %s && (((spec_walk_line((int)%s, %s, %s) & target) >> %s) & 1)) ? 1 : 0))))\n' % (KIND, KIND, side, FROM, RAY, OCC, 1 - side, ALLOWED, PLAIN, GF, FROM, RAY, FROM, OCC, GT) + LISTENS % 64)
         lc = {(fp, 1): bitloop_contract('%s && %s == from' % (PLAIN, GF))}
         h = ND + BUF + ('void h_pc(void) {\n' + RAYSPRE + HSETUP + '  struct Position P = nondet_Position(); uint32_t pin = nondet_u32(); uint64_t t = nondet_u64(); %s(pin, &P, t, l);' % fp + CANARY + '}\n')
@@ -108,6 +117,52 @@ def jobs(tier, seed):
         kw = dict(common); kw['loop_contracts'] = False; kw['expect'] = []
         out.append(Job('leaf/generate_enpassant_' + sn, MTUS, [fe], h, 'h_ep', contracts={fe: c}, enforce=fe, timeout=900,
                        note='en passant captures by not-pinned pawns: resolves the check if any, and the rank-exposure test when a single pawn captures', **kw))
+        # ---- pins: one contract per (side, ray) instantiation of generate_pin_in_ray, then generate_pins over those contracts
+        KS = '$1->_piece_position[%d][0]' % (6 + 6 * side)
+        OWN, EQ_, ER_, EB_ = ('$1->_by_color_bb[%d]' % side, '($1->_by_color_bb[%d] & $1->_by_piece_kind_bb[5])' % (1 - side),
+                              '($1->_by_color_bb[%d] & $1->_by_piece_kind_bb[4])' % (1 - side), '($1->_by_color_bb[%d] & $1->_by_piece_kind_bb[3])' % (1 - side))
+        pin_contracts = {}
+        for ray in range(8):
+            fr = 'generate_pin_in_ray_%d_%d' % (side, ray)
+            Q = 'spec_pin_sq(%d, %s, $4, %s, %s, %s, %s)' % (ray, KS, OWN, EQ_, ER_, EB_)
+            c = ('__CPROVER_requires(%s < 64 && __CPROVER_same_object($2, PINS) && __CPROVER_POINTER_OFFSET($2) %% 4 == 0 && __CPROVER_POINTER_OFFSET($2) + 4 <= 64 && __CPROVER_rw_ok($3, 8))\n' % KS +
+                 '__CPROVER_assigns(*$2, *$3)\n'
+                 '__CPROVER_ensures(%s == 64 ==> (__CPROVER_return_value == __CPROVER_old($2) && *$3 == __CPROVER_old(*$3)))\n' % Q +
+                 '__CPROVER_ensures(%s != 64 ==> (__CPROVER_return_value == __CPROVER_old($2) + 1 && *$3 == (__CPROVER_old(*$3) | (1ULL << %s)) && '
+                 '*__CPROVER_old($2) == ((%du << 9) | (sp_kind8($1->_board[%s]) << 6) | %s)))\n' % (Q, Q, ray, Q, Q))
+            pin_contracts[fr] = c
+            h = ND + ('void h_pr(void) {\n' + RAYSPRE + '  struct Position P = nondet_Position(); uint64_t pinned = nondet_u64(), bl = nondet_u64(); uint32_t k = nondet_u32(); __CPROVER_assume(k < 16);\n'
+                      '  %s(&P, PINS + k, &pinned, bl);' % fr + CANARY + '}\n')
+            out.append(Job('leaf/generate_pin_in_ray_%s_%d' % (sn, ray), MTUS, [fr], h, 'h_pr', contracts={fr: c}, enforce=fr, spec=['movegen.h'], force_globals=['PINS'],
+                           pre_text='static inline uint32_t sp_kind8(uint32_t pc) { return pc == 0 ? 0u : (pc - 1u) % 6u + 1u; }\n', timeout=1200,
+                           note='pin on ray %d: first piece on the ray from the king is an own piece and the second an enemy slider of the matching kind (lsb/msb of the masked ray == walking the ray)' % ray))
+        fpn = 'generate_pins_%d' % side
+        PA = '%s, ($1->_by_color_bb[0] | $1->_by_color_bb[1]), %s, %s, %s, %s' % (KS, OWN, EQ_, ER_, EB_)
+        c = ('__CPROVER_requires(%s < 64 && __CPROVER_same_object($2, PINS) && __CPROVER_POINTER_OFFSET($2) == 0 && __CPROVER_rw_ok($3, 8))\n' % KS +
+             '__CPROVER_assigns(*$3, __CPROVER_object_upto($2, 32))\n'
+             '__CPROVER_ensures(*$3 == (__CPROVER_old(*$3) | spec_pinned_set(%s)))\n' % PA +
+             '__CPROVER_ensures(__CPROVER_same_object(__CPROVER_return_value, PINS) && __CPROVER_POINTER_OFFSET(__CPROVER_return_value) == 4 * spec_pin_rank(8, %s))\n' % PA +
+             ''.join('__CPROVER_ensures(spec_pin_sq(%d, %s) == 64 || PINS[spec_pin_rank(%d, %s)] == ((%du << 9) | (sp_kind8($1->_board[spec_pin_sq(%d, %s)]) << 6) | spec_pin_sq(%d, %s)))\n'
+                     % (r, PA, r, PA, r, r, PA, r, PA) for r in range(8)))
+        PINS_CONTRACT = c
+        h = ND + ('void h_pins(void) {\n  struct Position P = nondet_Position(); uint64_t pinned = nondet_u64();\n'
+                  '  %s(&P, PINS, &pinned);' % fpn + CANARY + '}\n')
+        out.append(Job('leaf/generate_pins_' + sn, MTUS, [fpn], h, 'h_pins', contracts=dict(pin_contracts, **{fpn: c}), nobody=list(pin_contracts), enforce=fpn,
+                       replace=list(pin_contracts), spec=['movegen.h'], force_globals=['PINS'],
+                       pre_text='static inline uint32_t sp_kind8(uint32_t pc) { return pc == 0 ? 0u : (pc - 1u) % 6u + 1u; }\n', timeout=1500,
+                       note='pins: pinned set and pin records (square, kind, ray) in ray order, over the contracts of the eight per-ray functions'))
+        # ---- forbidden squares (attacked with the own king x-rayed out), point-wise in three ghost squares
+        ff = 'forbidden_squares_%d' % side
+        EB = lambda k: '($1->_by_color_bb[%d] & $1->_by_piece_kind_bb[%d])' % (1 - side, k)
+        FA = '$1->_piece_position[%d][0], ($1->_by_color_bb[0] | $1->_by_color_bb[1]), %s, %s, %s, %s, %s, %s' % (6 + 6 * side, EB(1), EB(2), EB(3), EB(4), EB(5), EB(6))
+        c = ('__CPROVER_requires(wf_board($1) && wf_lists($1) && $1->_piece_count[6] == 1 && $1->_piece_count[12] == 1 && G_F1 < 64 && G_F2 < 64 && G_F3 < 64)\n__CPROVER_assigns()\n' +
+             ''.join('__CPROVER_ensures(((__CPROVER_return_value >> %s) & 1) == spec_forbidden_bit(%d, %s, %s))\n' % (g, side, g, FA) for g in ('G_F1', 'G_F2', 'G_F3')))
+        h = ND + ('void h_fb(void) { for (uint32_t s = 0; s < 64; s++) { KNIGHT_MASK[s] = spec_knight(s); KING_MASK[s] = spec_king(s); }\n'
+                  '  struct Position P = nondet_Position(); G_F1 = nondet_u32(); G_F2 = nondet_u32(); G_F3 = nondet_u32(); %s(&P);' % ff + CANARY + '}\n')
+        out.append(Job('leaf/forbidden_squares_' + sn, MTUS, [ff], h, 'h_fb', contracts=dict(SLC, **{ff: c}), nobody=list(SLC), enforce=ff, replace=list(SLC),
+                       spec=['poswf_decl.h', 'movegen.h'], post_spec=['poswf.h'], pre_text='uint32_t G_F1, G_F2, G_F3;\n', timeout=2400,
+                       unwindset=loops_unwind([('forbidden_squares', 11)]), route='closed-by-complete-unwinding(11): piece lists have 10 slots',
+                       note='squares attacked by the enemy with the own king lifted off (union over the enemy piece lists) == attacked-from-the-square formulation, at three ghost squares'))
         # ---- checkers
         fc = 'checkers_%d' % side
         K = 'position->_piece_position[%d][0]' % (6 + 6 * side)
@@ -120,4 +175,117 @@ def jobs(tier, seed):
         h = ND + ('void h_ck(void) { for (uint32_t s = 0; s < 64; s++) KNIGHT_MASK[s] = spec_knight(s);\n  struct Position P = nondet_Position(); %s(&P);' % fc + CANARY + '}\n')
         out.append(Job('leaf/checkers_' + sn, MTUS, [fc], h, 'h_ck', contracts=dict(SL, **{fc: c}), nobody=list(SL), enforce=fc, replace=['slider_attack_3', 'slider_attack_4'],
                        spec=['movegen.h'], timeout=900, note='checkers(side) == enemy pieces attacking the king square (pawn, knight, bishop/queen and rook/queen rays)'))
+    for j in out:
+        for k, v in j.contracts.items():
+            if j.enforce and k == j.enforce[0]:
+                LEAF[k] = v
+    LEAF.update(SLC)
+    out += composition_jobs(LEAF)
+    out += lemma_jobs(tier, seed)
+    return out
+
+
+# ------------------------------------------------------------------------------------------------ composition
+def composition_jobs(leaf_contracts):
+    """generate_legal_moves<side> under contract with every leaf by contract: emitted moves == the algorithm predicate spec_alg_count."""
+    out = []
+    for side in (0, 1):
+        sn = ('white', 'black')[side]
+        fn = 'generate_legal_moves_%d' % side
+        leafs = ['checkers_%d' % side, 'forbidden_squares_%d' % side, 'generate_pawn_moves_%d' % side, 'generate_enpassant_%d' % side, 'generate_king_moves',
+                 'generate_pinned_piece_moves_%d' % side] + ['generate_piece_moves_%d' % k for k in (2, 3, 4, 5)] + ['generate_pin_in_ray_%d_%d' % (side, r) for r in range(8)]
+        cs = {k: leaf_contracts[k] for k in leafs}
+        H = 56 * side
+        c = ('__CPROVER_requires(wf_pos($1) && $1->_current_side == %d && sp_is($1, &G_P0) && !sp_in_check(G_P0.board, %d) && __builtin_popcountll($1->_by_color_bb[%d] & $1->_by_piece_kind_bb[1]) <= 8)\n' % (side, 1 - side, side) +
+             '__CPROVER_requires(__CPROVER_same_object($2, g_lo) && __CPROVER_POINTER_OFFSET($2) == 0 && g_cap_bytes == 65536 && g_cnt >= 0 && g_cnt < 1000 && (G_M >> 17) == 0)\n'
+             '__CPROVER_requires(G_F3 == %s && G_F1 == (%s == 1 ? %d : (%s == 2 ? %d : %s)) && G_F2 == (%s == 1 ? %d : (%s == 2 ? %d : %s)))\n' % (GT, GC, H + 5, GC, H + 2, GT, GC, H + 6, GC, H + 3, GT) +
+             '__CPROVER_requires(G_ATT2 == spec_knight(%s) && G_ATT3 == spec_bishop_walk(%s, OCCP) && G_ATT4 == spec_rook_walk(%s, OCCP) && G_ATT5 == (G_ATT3 | G_ATT4))\n'.replace('OCCP', '($1->_by_color_bb[0] | $1->_by_color_bb[1])') % (GF, GF, GF) +
+             '__CPROVER_assigns(g_cnt, __CPROVER_object_whole(PINS))\n'
+             '__CPROVER_ensures(g_cnt == __CPROVER_old(g_cnt) + spec_alg_count(&G_P0, G_M))\n')
+        lc = {}
+        for i, (var, k) in enumerate((('not_pinned_knights', 2), ('not_pinned_bishops', 3), ('not_pinned_rooks', 4), ('not_pinned_queens', 5))):
+            lc[(fn, i + 1)] = ['__CPROVER_assigns(%s, list, g_cnt)' % var,
+                               '__CPROVER_loop_invariant((%s & ~__CPROVER_loop_entry(%s)) == 0)' % (var, var),
+                               '__CPROVER_loop_invariant(__CPROVER_same_object(list, g_lo) && __CPROVER_POINTER_OFFSET(list) >= __CPROVER_POINTER_OFFSET(__CPROVER_loop_entry(list)) && '
+                               '__CPROVER_POINTER_OFFSET(list) <= __CPROVER_POINTER_OFFSET(__CPROVER_loop_entry(list)) + 112 * __builtin_popcountll(__CPROVER_loop_entry(%s) & ~%s))' % (var, var),
+                               '__CPROVER_loop_invariant(g_cnt == __CPROVER_loop_entry(g_cnt) + (((((__CPROVER_loop_entry(%s) & ~%s) >> %s) & 1) && %s && (((G_ATT%d & target) >> %s) & 1)) ? 1 : 0))' % (var, var, GF, PLAIN, k, GT),
+                               '__CPROVER_decreases(%s)' % var]
+        h = ND + ('uint32_t BUF[16384];\n'
+                  'void h_gl(void) {\n'
+                  '  verif_restore_statics();\n'
+                  '  for (uint32_t a = 0; a < 64; a++) for (uint32_t b = 0; b < 64; b++) LINES[a][b] = spec_segment(a, b);   /* C11: geom/lines */\n'
+                  '  CASTLING_PATHS[1] = 0x60ULL; CASTLING_PATHS[2] = 0x0CULL; CASTLING_PATHS[4] = 0x6000000000000000ULL; CASTLING_PATHS[8] = 0x0C00000000000000ULL;   /* C11: geom/rays_masks */\n'
+                  '  struct Position P = nondet_Position(); sp_of(&P, &G_P0); W_P = P;\n'
+                  '  g_lo = BUF; g_cap_bytes = sizeof(BUF); G_M = nondet_u32(); g_cnt = nondet_int(); W_m = G_M;\n'
+                  '  G_F1 = nondet_u32(); G_F2 = nondet_u32(); G_F3 = nondet_u32(); G_ATT2 = nondet_u64(); G_ATT3 = nondet_u64(); G_ATT4 = nondet_u64(); G_ATT5 = nondet_u64();\n'
+                  '  %s(&P, BUF);' % fn + CANARY + '}\n')
+        pre = EMIT_PRE + ('uint32_t G_F1, G_F2, G_F3; uint64_t G_ATT2, G_ATT3, G_ATT4, G_ATT5; SPos G_P0; struct Position W_P; uint32_t W_m;\n'
+                          'static inline uint32_t sp_kind8(uint32_t pc) { return pc == 0 ? 0u : (pc - 1u) % 6u + 1u; }\n')
+        out.append(Job('compose/generate_legal_moves_' + sn, MTUS, [fn], h, 'h_gl', contracts=dict(cs, **{fn: c}), nobody=leafs, loopc=lc, enforce=fn, replace=leafs,
+                       loop_contracts=True, hooks=HOOKS, spec=['poswf_decl.h', 'movegen.h'], post_spec=['poswf.h'], pre_text=pre, force_globals=['PINS'],
+                       unwindset=loops_unwind([(fn, 9)]), timeout=3000, expect=['loop_invariant_step'],
+                       route='loop contracts on the four piece loops; pin loop closed-by-complete-unwinding(9): at most 8 pins',
+                       note='generate_legal_moves<%s> emits exactly the moves of the check-mask / pin algorithm predicate (spec_alg_count), each once - every leaf generator by contract' % sn))
+    return out
+
+
+# replay of a counterexample position on the real generator: every candidate move is compared with the rule oracle
+REPLAY_GEN = {'needs': ['W_S.side'], 'body': '''
+  SPos S; memset(&S, 0, sizeof S);
+  for (int s = 0; s < 64; s++) S.board[s] = (sp_pc)W_S_board[s];
+  S.side = (uint32_t)W_S_side; S.rights = (uint32_t)W_S_rights; S.ep = (uint32_t)W_S_ep;
+  std::string fen; const char* pcs = ".PNBRQKpnbrqk";
+  for (int r = 7; r >= 0; r--) { int e = 0; for (int f = 0; f < 8; f++) { int pc = S.board[r * 8 + f]; if (!pc) e++; else { if (e) fen += char('0' + e); e = 0; fen += pcs[pc]; } } if (e) fen += char('0' + e); if (r) fen += '/'; }
+  fen += S.side ? " b " : " w "; std::string cr; if (S.rights & 1) cr += 'K'; if (S.rights & 2) cr += 'Q'; if (S.rights & 4) cr += 'k'; if (S.rights & 8) cr += 'q'; fen += cr.empty() ? "-" : cr;
+  fen += ' '; if (S.ep == 64) fen += '-'; else { fen += char('a' + (S.ep & 7)); fen += char('1' + (S.ep >> 3)); } fen += " 0 1";
+  Position Q(fen);
+  Move list[512]; Move* end = generate_moves(Q, Q.color(), list);
+  int bad = 0;
+  auto emitted = [&](uint32_t m) { int n = 0; for (Move* it = list; it != end; ++it) if (*it == m) n++; return n; };
+  for (uint32_t code = 1; code <= 2; code++) { uint32_t m = code << 15; int n = emitted(m), l = sp_legal(&S, m); if (n != l) { printf("castling code %u: generated %d time(s), legal %d\\n", code, n, l); bad++; } }
+  for (uint32_t f = 0; f < 64; f++) for (uint32_t t = 0; t < 64; t++) for (uint32_t pr = 0; pr <= 5; pr++) { if (pr == 1) continue; uint32_t m = spec_move_pack(f, t, pr, 0);
+    int n = emitted(m), l = sp_legal(&S, m); if (n != l) { if (bad < 8) printf("move %c%c%c%c promo %u: generated %d time(s), legal under the rules %d\\n", 'a' + (f & 7), '1' + (f >> 3), 'a' + (t & 7), '1' + (t >> 3), pr, n, l); bad++; } }
+  printf("position %s: %d generated moves, %d disagreement(s) with the rules\\n", fen.c_str(), (int)(end - list), bad);
+  if (bad) printf("CONFIRMED generate_moves differs from the legal move set\\n"); else printf("NOT-REPRODUCED\\n");
+''', 'access': ''}
+REPLAY_GEN_DECL = '#include <cstring>\n#include "movegen.h"\n'
+
+
+# ------------------------------------------------------------------------------------------------ the legality theorem (spec side)
+LEMMA_PRE = '''
+/* the e.p. square stems from a double push that was itself legal: with the pawn back on its origin square the side that is now to
+ * move (then NOT to move) was not in check */
+static inline _Bool sp_ep_history_ok(const SPos *P)
+{
+  if (P->ep == SP_NONE) return 1;
+  SPos Q = *P; uint32_t e = P->ep;
+  uint32_t now = P->side == 0 ? e - 8 : e + 8, origin = P->side == 0 ? e + 8 : e - 8;
+  Q.board[origin] = Q.board[now]; Q.board[now] = 0;
+  return !sp_in_check(Q.board, P->side);
+}
+static inline uint32_t alg_class(const SPos *P, uint32_t m)
+{ if (spec_move_ccode(m) != 0) return 0; uint32_t k = sp_kind(P->board[spec_move_from(m)]); return k == 6 ? 1 : (k == 1 ? 2 : (k == 2 ? 3 : (k == 3 ? 4 : (k == 4 ? 5 : (k == 5 ? 6 : 7))))); }
+'''
+LCLASS = ['castling', 'king', 'pawn', 'knight', 'bishop', 'rook', 'queen', 'nopiece']
+
+
+def lemma_jobs(tier, seed):
+    """spec_alg_count(P, m) == [sp_legal(P, m)] for every legal position: split on the king square of the side to move and the mover class."""
+    import random
+    rnd = random.Random(seed)
+    squares = list(range(64))
+    quick_sq = set(rnd.sample(squares, 4))
+    out = []
+    for ksq in squares:
+        for ci, cname in enumerate(LCLASS):
+            h = ('uint32_t nondet_u32(void); SPos nondet_SPos(void);\nSPos W_S; uint32_t W_m;\n'
+                 'void h_l(void) { SPos P = nondet_SPos(); uint32_t m = nondet_u32();\n'
+                 '  __CPROVER_assume(sp_state_ok(&P) && !sp_in_check(P.board, 1 - P.side) && sp_ep_history_ok(&P) && (m >> 17) == 0);\n'
+                 '  __CPROVER_assume(sp_king_sq(P.board, P.side) == %d && alg_class(&P, m) == %d);\n' % (ksq, ci) +
+                 '  W_S = P; W_m = m;\n'
+                 '  __CPROVER_assert(spec_alg_count(&P, m) == (sp_legal(&P, m) ? 1 : 0), "check-mask / pin algorithm predicate == legality under the rules of chess");' + CANARY + '}\n')
+            out.append(Job('theorem/k%02d_%s' % (ksq, cname), tu('types.cpp'), ['from'], h, 'h_l', spec=['pos.h', 'movegen.h'], pre_text=LEMMA_PRE, timeout=3000,
+                           tier='quick' if ksq in quick_sq else 'thorough', canary=(cname == 'king'), replay=REPLAY_GEN,
+                           note='legality theorem, king of the side to move on square %d, mover class %s (spec-side lemma: no engine code in the query)' % (ksq, cname)))
+            out[-1].replay_decl = REPLAY_GEN_DECL
     return out
